@@ -217,3 +217,64 @@ def real_manager(paths, level, n, variations):
         return _guard(f)
     finally:
         ssm.SensitivityAnalysisResultsManager = orig
+
+
+C19_SOURCES = ["parameters/parameters_holder.py", "parameters/genric_parameters.py",
+               "parameters/high_level_parameters.py", "sensitivity_analysis/parameter_variator.py",
+               "sensitivity_analysis/sensitivity_processing.py", "constants/sensitivity_analysis_constants.py"]
+
+
+def independent_sens(base):
+    """the sensitivity program as the configuration defines it: the first program whose name is not
+    the baseline's (computed from the dictionaries, not asked of the holder)"""
+    baseline = base["sim"].get("baseline_program")
+    for name, prog in base["programs"].items():
+        if prog.get("program_name") != baseline:
+            return name
+    return None
+
+
+def real_vary_history(base, calls):
+    """ONE base holder built ONCE from ONE set of dictionaries, several vary calls in a row
+    (calls = [(level, n, unpacked variations)]); returns the outcome of every call, whether the holder /
+    the dictionaries it was built from are unchanged at the end, and a second holder built from the
+    SAME dictionary objects before the calls (it must still render the base)."""
+    sim, progs = copy.deepcopy(base["sim"]), copy.deepcopy(base["programs"])
+    vw, out = copy.deepcopy(base["vw"]), copy.deepcopy(base["out"])
+    holder = ParametersHolder(sim, progs, vw, out, sim.get("baseline_program"))
+    twin = ParametersHolder(sim, progs, vw, out, sim.get("baseline_program"))   # same input objects
+    before = canon([sim, progs, vw, out])
+    sp = holder.get_non_baseline_program()
+    outs = []
+    for (level, n, variations) in calls:
+        v = copy.deepcopy(variations)
+
+        def f():
+            return [holder_dicts(s) for s in _pv.vary_parameter_values(holder, sp, level, n, v)]
+
+        outs.append(_guard(f))
+    return outs, {
+        "inputs_unchanged": before == canon([sim, progs, vw, out]),
+        "holder_unchanged": canon(holder_dicts(holder)) == canon(base),
+        "twin_unchanged": canon(holder_dicts(twin)) == canon(base),
+    }
+
+
+def real_roundtrips(base):
+    """deepcopy and pickle round trips of the holder (vary relies on deepcopy; copy hooks that share
+    sub-objects or drop attributes show here): rendered dictionaries equal, no object shared"""
+    import pickle
+
+    sim, progs = copy.deepcopy(base["sim"]), copy.deepcopy(base["programs"])
+    vw, out = copy.deepcopy(base["vw"]), copy.deepcopy(base["out"])
+
+    def f():
+        h = ParametersHolder(sim, progs, vw, out, sim.get("baseline_program"))
+        d = copy.deepcopy(h)
+        p = pickle.loads(pickle.dumps(h))
+        return {"deepcopy_equal": canon(holder_dicts(d)) == canon(holder_dicts(h)),
+                "pickle_equal": canon(holder_dicts(p)) == canon(holder_dicts(h)),
+                "deepcopy_shared": len(shared_objects(h, [d])), "pickle_shared": len(shared_objects(h, [p])),
+                "baseline_kept": d.baseline_program_name == h.baseline_program_name == p.baseline_program_name}
+
+    return _guard(f)
